@@ -178,6 +178,9 @@ def check(run, driver):
             X = rng.standard_normal((N, 1)); Y = rng.standard_normal((N, 1)) + (X if it % 2 else 0)
             Z = rng.standard_normal((N, kz)) if kz else None
         alpha = float(rng.choice([0.05, 0.1, 0.5])); n = int(rng.integers(4, 13))
+        if it in (1, 2) or (thorough and it % 10 in (1, 2)):       # longer series with budgets that are not round numbers (kNN, KDE): exactly n surrogates, whatever n * N is
+            N = int(rng.integers(110, 140)); n = int(rng.choice([50, 53, 67, 99]))
+            X = rng.standard_normal((N, 1)); Y = rng.standard_normal((N, 1)) + X; Z = rng.standard_normal((N, kz)) if kz else None
         kw = dict(metric=["euclidean", "minkowski", "chebyshev", "cityblock"][(it // 5) % 4], k_means=int(rng.integers(1, 5)), bandwidth=["silverman", "scott", 0.8][(it // 5) % 3])
 
         def est(Xp, Yp, Zp=None, **k):
